@@ -556,7 +556,7 @@ type c45Outcome struct {
 	Consumer bool // the chan consumer saw the channel closed
 }
 
-var c45Watchdog = 90 * time.Second
+var c45Watchdog = 30 * time.Second
 
 // c45ProcessedCounts samples the processed-message counters of the stream's actors.
 func c45ProcessedCounts(h StreamHandle) ([]int, []bool) {
@@ -585,8 +585,9 @@ func c45DumpStacks() {
 }
 
 // c45Await waits for Done. When the watchdog fires it decides structurally whether the
-// stream is stuck: no stage actor processed a single message over a further observation
-// window while the sink actor is still alive.
+// stream is stuck: as long as some stage actor still processes messages it keeps
+// waiting (slow is not wrong); when no stage actor processed a single message over a
+// further 10 s window while the sink actor is still alive, the stream is stuck.
 func c45Await(h StreamHandle, o *c45Outcome) {
 	select {
 	case <-h.Done():
@@ -594,30 +595,38 @@ func c45Await(h StreamHandle, o *c45Outcome) {
 		return
 	case <-time.After(c45Watchdog):
 	}
+	deadline := time.Now().Add(10 * time.Minute)
 	c1, r1 := c45ProcessedCounts(h)
-	for k := 0; k < 5; k++ {
+	quiet := 0
+	for time.Now().Before(deadline) {
 		select {
 		case <-h.Done():
 			o.Done = true
-			o.Slow = "completed only after the watchdog"
 			return
 		case <-time.After(2 * time.Second):
 		}
-	}
-	c2, r2 := c45ProcessedCounts(h)
-	same := len(c1) > 0 && len(c1) == len(c2)
-	for i := range c1 {
-		if !same || c1[i] != c2[i] || r1[i] != r2[i] {
-			same = false
-			break
+		c2, r2 := c45ProcessedCounts(h)
+		same := len(c1) > 0 && len(c1) == len(c2)
+		for i := range c1 {
+			if !same || c1[i] != c2[i] || r1[i] != r2[i] {
+				same = false
+				break
+			}
+		}
+		if same {
+			quiet++
+		} else {
+			quiet = 0
+		}
+		c1, r1 = c2, r2
+		if quiet >= 5 && r2[len(r2)-1] {
+			c45DumpStacks()
+			o.Stuck = fmt.Sprintf("no stage actor processed a message for 10 s after a %s watchdog while the sink actor is alive; processed=%v running=%v", c45Watchdog, c2, r2)
+			return
 		}
 	}
 	c45DumpStacks()
-	if same && r2[len(r2)-1] {
-		o.Stuck = fmt.Sprintf("no stage actor processed a message for 10 s after a %s watchdog; processed=%v running=%v", c45Watchdog, c2, r2)
-		return
-	}
-	o.Slow = fmt.Sprintf("watchdog fired, still progressing: processed %v -> %v running=%v", c1, c2, r2)
+	o.Slow = fmt.Sprintf("not done after 10 min; processed=%v running=%v", c1, r1)
 }
 
 // run materializes and runs the case once.
@@ -878,7 +887,13 @@ func (c *c45Case) judge(r *verifrt.Run, o c45Outcome, e c45Expect) (bad bool) {
 		return true
 	}
 	if o.Stuck != "" {
-		r.Violation("stream-never-completes:stages="+kinds+":sink="+c.Sink, detail(map[string]any{"stuck": o.Stuck}))
+		var flow []string // how far the elements got: seen/expected inputs per probed stage
+		for i, p := range c.probes {
+			if p != nil {
+				flow = append(flow, fmt.Sprintf("%d:%s saw %d of %d", i, c.Stages[i].Kind, len(p.snapshot()), len(e.StageIn[i])))
+			}
+		}
+		r.Violation("stream-never-completes:stages="+kinds+":sink="+c.Sink, detail(map[string]any{"stuck": o.Stuck, "progress_per_probed_stage": flow}))
 		return true
 	}
 	if !o.Done {
@@ -990,9 +1005,9 @@ func TestVerif_C45(t *testing.T) {
 	}
 
 	rng := r.Rand(45)
-	n := r.N(400, 30000)
+	n := r.N(320, 30000)
 	stuck := 0
-	for done := 0; done < n && stuck < 2; {
+	for done := 0; done < n && stuck < 4; {
 		g := []int{1, 1, 2, 4}[rng.Intn(4)]
 		if g > n-done {
 			g = n - done
@@ -1059,7 +1074,7 @@ func TestVerif_C45(t *testing.T) {
 		}
 		done += g
 	}
-	if stuck >= 2 {
+	if stuck >= 4 {
 		r.Note("batch stopped early after %d streams that did not complete", stuck)
 	}
 }
